@@ -71,6 +71,7 @@ u8_enum!(DropScript {
     CollectThenFinalizeAgainG = 6,
     TakeCell1ThenAlloc = 7,
     NewCyclicSaveWeakPanics = 8,
+    CloneWcellToW0 = 9,
 });
 
 u8_enum!(Closure {
@@ -1509,6 +1510,8 @@ fn do_collect() {
         c.stats.borrow_mut().nested_collect_noop += 1;
         if d != 0 {
             v!("C12", "P-phase", "collect_cycles() called from a callback of a running collection started {} collection(s)", d);
+            // (the same observation read as a counter: no collection was started, so the count must not move)
+            v!("C11", "P-intro", "executions_count() changed by {} across a collect_cycles() call that a running collection must ignore", d);
         }
     } else {
         if c.stack.borrow().iter().any(|f| !matches!(f, Frame::Api { .. })) {
@@ -1884,6 +1887,25 @@ fn run_drop_script(node: &Node) {
             script_finalize_again_g("destructor (after a collect_cycles() call)");
         },
         DropScript::TakeCell1ThenAlloc => script_take_cell1_then_alloc(node, false),
+        DropScript::CloneWcellToW0 => {
+            // a destructor that clones the Weak in its own weak cell (which may point to the object being destroyed) and
+            // keeps the clone in the weak variable w0: every Weak::clone is a Weak that exists and must be counted
+            #[cfg(feature = "weak")]
+            {
+                let target = c.model.borrow().objs[id].wcell;
+                if c.cfg.nw > 0 && c.wvars[0].borrow().is_none() && c.model.borrow().wvars[0].is_none() {
+                    if let (Ok(w), Some(target)) = (node.wcell.try_borrow(), target) {
+                        if let Some(w) = w.as_ref() {
+                            let cl = w.clone();
+                            *c.wvars[0].borrow_mut() = Some(cl);
+                            c.model.borrow_mut().wvars[0] = Some(target);
+                        }
+                    }
+                }
+            }
+            #[cfg(not(feature = "weak"))]
+            let _ = id;
+        },
         DropScript::NewCyclicSaveWeakPanics => {
             #[cfg(feature = "weak")]
             script_new_cyclic_save_weak_panics();
